@@ -184,13 +184,14 @@ func checkOptNormalisationAs(p *Program, r *Report, rule string) {
 	nonNil := func(v string) bool {
 		return strings.HasPrefix(v, "call:") && strings.Contains(v, ".Bool(") || strings.HasPrefix(v, "&") || strings.HasPrefix(v, "local:")
 	}
-	var badC, badN []string
+	var badC, badN, badOn []string
 	nComplete := 0
 	for _, fp := range paths {
 		if fp.panics {
 			continue
 		}
 		complete := true // Complete may be set and true on this path unless a condition says otherwise
+		assertedTrue := false
 		nilAtEntry := map[string]bool{}
 		bare := map[string]bool{}
 		for _, c := range fp.pc {
@@ -199,6 +200,9 @@ func checkOptNormalisationAs(p *Program, r *Report, rule string) {
 				// a boolean used as a condition directly: "X" or "!X"
 				if !strings.HasPrefix(c, "!") {
 					bare[c] = true
+					if strings.HasSuffix(c, ".Complete") {
+						assertedTrue = true
+					}
 				} else if strings.HasSuffix(c, ".Complete") {
 					complete = false
 				}
@@ -207,6 +211,9 @@ func checkOptNormalisationAs(p *Program, r *Report, rule string) {
 			isC := func(x string) bool { return strings.HasSuffix(x, ".Complete") }
 			if (op == "!=" && ((isC(a) && b == "true") || (isC(b) && a == "true"))) || (op == "==" && ((isC(a) && (b == "false" || b == "nil")) || (isC(b) && (a == "false" || a == "nil")))) {
 				complete = false
+			}
+			if (op == "==" && ((isC(a) && b == "true") || (isC(b) && a == "true"))) || (op == "!=" && ((isC(a) && b == "false") || (isC(b) && a == "false"))) {
+				assertedTrue = true
 			}
 			if op == "==" && a == "nil" {
 				for _, f := range []string{"DedupValue", "InnerPrefix", "LeafPrefix"} {
@@ -243,6 +250,15 @@ func checkOptNormalisationAs(p *Program, r *Report, rule string) {
 				}
 			}
 		}
+		if !assertedTrue {
+			// the converse: a prefix kind is switched on only by the caller's own flag or by Complete being
+			// true — "Complete was given" is not "Complete is true" (filter mode must stay filter mode)
+			for _, f := range []string{"InnerPrefix", "LeafPrefix"} {
+				if isTrue(final[f]) {
+					badOn = append(badOn, fmt.Sprintf("on the path [%s] %s is set to true although nothing says Complete is true", abbreviate(fp.pcKey()), f))
+				}
+			}
+		}
 		for _, f := range []string{"DedupValue", "InnerPrefix", "LeafPrefix"} {
 			if nilAtEntry[f] && !nonNil(final[f]) {
 				badN = append(badN, fmt.Sprintf("on the path [%s] %s is nil on entry and is not given a value", abbreviate(fp.pcKey()), f))
@@ -255,6 +271,8 @@ func checkOptNormalisationAs(p *Program, r *Report, rule string) {
 		r.Check(len(badC) == 0, shortFn(norm)+": Complete implies both prefixes", p.Pos(norm.Pos()), fmt.Sprintf("%d paths with Complete true, each ends with InnerPrefix = LeafPrefix = Bool(true)", nComplete),
 			strings.Join(firstN(dedupStrings(sortStr(badC)), 3), "; ")+": a trie built as \"Complete\" stores less than both prefixes and reports absent keys as found")
 	}
+	r.Check(len(badOn) == 0, shortFn(norm)+": prefixes are switched on only by Complete being true", p.Pos(norm.Pos()), "no path without Complete == true stores true into a prefix option",
+		strings.Join(firstN(dedupStrings(sortStr(badOn)), 3), "; ")+": a trie asked to be a filter stores key material (size no longer independent of key length)")
 	r.Check(len(badN) == 0, shortFn(norm)+": no flag left nil", p.Pos(norm.Pos()), fmt.Sprintf("%d paths, every flag nil on entry is assigned", len(paths)), strings.Join(firstN(dedupStrings(sortStr(badN)), 3), "; "))
 }
 
@@ -349,6 +367,7 @@ func checkC17(p *Program, r *Report) {
 	}
 	checkBigNodeThreshold(p, r)
 	checkShiftInvariant(p, r)
+	checkOptNormalisationAs(p, r, "C17.options")
 	checkBuildStateless(p, r, "C17.build-stateless")
 	r.Rule("C17.sections", "E2", "whether a per-node section of the message is built does not depend on key content", 4)
 	for _, wf := range bf.sortedWire() {
